@@ -80,6 +80,7 @@ func c16Run(w *W, c Case) {
 	}
 	y := c.A[0]
 	w.Class(fmt.Sprintf("century%02d", y/100))
+	historyTouch(w, y)
 	tbl := calendar.NewSolarFromYmd(y, 6, 15).GetLunar().GetJieQiTable()
 	dj := func(k string) int { e := tbl[k]; return ref.JDN(e.GetYear(), e.GetMonth(), e.GetDay()) }
 	w0s := nearestJiazi(dj("冬至"))
